@@ -358,6 +358,10 @@ class Memory:
             raise GoPanic('write-to-readonly', obj.label)
         if self.writes is not None:
             self.writes.append((obj, off, n))
+        if obj.meta and 'pooled' in obj.meta and not obj.meta.get('pooled_reported'):
+            obj.meta['pooled_reported'] = True
+            self.ex.events.append(('assert', 'no use after sync.Pool.Put'))
+            self.ex.verif_assert(False, 'no store to a value after it was handed to sync.Pool.Put (Put at %s): another goroutine may already own it' % str(obj.meta['pooled']).split('/')[-1])
         c = obj.cells
         e = c.get(off)
         if e is None or e[0] != n or n > 1:
@@ -1534,6 +1538,24 @@ class Executor:
             n = min(d.len, s.len)
             self.memmove(d.ptr, s.ptr, n * es)
             return n
+        if name == 'clear':
+            x = args[0]
+            if isinstance(x, MapObj):
+                self.shared_map_access(x, True)
+                x.entries[:] = []
+                return None
+            if isinstance(x, Slice):
+                es = 1
+                sig = P.T(ins['sig']) if ins and 'sig' in ins else None
+                if sig:
+                    es = P.size(P.T(sig['params'][0])['elem'])
+                n = self.sym_len(x.len, 'clear length') if not isinstance(x.len, int) else x.len
+                for k in range(n * es):
+                    self.mem.write(x.ptr.obj, x.ptr.off + k, 1, 0)
+                return None
+            if x is None:
+                return None
+            raise Unsupported('clear of %r' % (x,))
         if name in ('min', 'max'):
             sig = P.T(ins['sig'])
             tt = P.T(sig['params'][0])
